@@ -286,7 +286,7 @@ def ghint_hint_validation(ctx):
     fam = prog.family("storage::bitcask::populate_keydir_with_hintfile")
     b = None
     for x in fam:
-        if calls_in([x], "dashmap::DashMap::insert"):
+        if calls_in([x], "dashmap::DashMap::insert") and b is None:
             b = x
     f = "storage::bitcask::populate_keydir_with_hintfile"
     if b is None:
@@ -315,13 +315,13 @@ def ghint_hint_validation(ctx):
         info = b.switch_info(bb)
         if not info or info["kind"] != "bool":
             continue
-        o = peel_var(info["on"])
-        if o[0] == "bin" and o[1] in ("Le", "Lt", "Ge", "Gt") and mentions_len_of_datafile(o) and mentions_entry_extent(o):
-            guards.append((bb, info, o))
+        o, neg = bool_switch_comparison(b, bb)
+        if o is not None and o[1] in ("Le", "Lt", "Ge", "Gt") and mentions_len_of_datafile(o) and mentions_entry_extent(o):
+            guards.append((bb, info, o, neg))
     if not guards:
         r.bad(f, "hint entry checked against the data file's length", where(b, ibb), "no comparison of the entry's extent (pos, len) with Metadata::len of the same id's data file guards the insert: a hint file ahead of its data file makes recovered keys point past the end of the data")
         return r
-    for bb, info, o in guards:
+    for bb, info, o, neg in guards:
         # which edge dominates the insert?
         acc = None
         for e in b.succ[bb]:
@@ -341,6 +341,8 @@ def ghint_hint_validation(ctx):
             continue
         e = acc_edges[0]
         val = info["arms"].get(e.dst)
+        if neg and val in ([True], [False]):
+            val = [not val[0]]
         dom = ibb not in reach(b, [b.term(list(nxt)[0])["t"]] if nxt else [0], blocked_edges=lambda x: x.kind == "unwind" or (x.src, x.dst) == (e.src, e.dst), blocked_blocks=set())
         r.add(f, "keydir.insert only on the accepting edge of the extent test", dom, where(b, ibb))
         # normalise: accept iff end <= len
@@ -401,14 +403,21 @@ def p17_read_under_index_guard(ctx):
 # O1: recovery order
 
 
+def peel_var_keep(o):
+    """the outermost variable of an origin (not peeled into what it was assigned from)"""
+    return o
+
+
 def o1_recovery_order(ctx):
     r = RuleResult("O1", "recovery replays data files in ascending numeric id order: sorted_fileids collects u64 ids into a BTreeSet<u64> and returns its iterator; rebuild_storage's loop consumes that iterator directly (no reversal/reordering) and passes the loop's id to both loaders; the new active id is derived from the maximum id seen, plus one", floor=4)
     prog = ctx.prog
     sf = prog.family("storage::bitcask::utils::sorted_fileids")
     sb = None
     for x in sf:
-        if calls_in([x], "std::iter::Iterator::collect"):
+        if calls_in([x], "std::iter::Iterator::collect") and sb is None:
             sb = x
+    if sb is None and sf and sf[0].def_kind in ("Fn", "AssocFn"):
+        sb = sf[0]  # the set is filled by a loop instead of collected
     f = "storage::bitcask::utils::sorted_fileids"
     if sb is None:
         r.unrec(f, "collect into an ordered set", "src/storage/bitcask/utils.rs", "no Iterator::collect found")
@@ -427,7 +436,17 @@ def o1_recovery_order(ctx):
             sbbs = {bb for bb, t in sorts}
             must = not [c for c, d, rb in ret_classes(sb, 0, lambda e: e.kind == "unwind" or (e.src in sbbs and e.kind == "ret")) if c == "ok"]
             idiom_b = bool(sv) and vec_u64 and mentions and must
-        r.add(f, "ids are ordered numerically ascending (BTreeSet<u64> iterator, or a sorted Vec<u64>)", idiom_a or idiom_b, short_span(sb.span), "idiom BTreeSet=%s sorted-Vec=%s" % (idiom_a, idiom_b))
+        # idiom (c): into_iter() of a local BTreeSet<u64>, however it was filled
+        idiom_c = False
+        if rets and all(o is not None for o in rets):
+            idiom_c = True
+            for o in rets:
+                # into_iter is transparent for origins: the Ok payload is the set variable itself
+                po = o[4].get("0") if o[0] == "agg" and o[3] == "Ok" else None
+                okv = po is not None and po[0] == "var" and "std::collections::BTreeSet<u64>" in sb.local_ty(po[1])
+                if not okv or origin_mentions(o, lambda x: x[0] == "call" and x[1] and x[1].split("::")[-1] in ("rev", "sort_by", "sort_by_key", "shuffle")):
+                    idiom_c = False
+        r.add(f, "ids are ordered numerically ascending (BTreeSet<u64> iterator, or a sorted Vec<u64>)", idiom_a or idiom_b or idiom_c, short_span(sb.span), "idiom BTreeSet=%s sorted-Vec=%s" % (idiom_a, idiom_b))
         # ids are parsed as u64 (not compared as strings)
         pr = [t for _, bb, t in calls_in(sf, "core::str::<impl str>::parse", "str::parse", "std::str::FromStr::from_str")]
         good = any("u64" in " ".join(t.get("callee_args") or []) for t in pr) or any("u64" in (t.get("dest_ty") or "") for t in pr)
@@ -453,7 +472,7 @@ def o1_recovery_order(ctx):
     rf = prog.family("storage::bitcask::rebuild_storage")
     rb = None
     for x in rf:
-        if calls_in([x], "storage::bitcask::populate_keydir_with_hintfile"):
+        if calls_in([x], "storage::bitcask::populate_keydir_with_hintfile") and rb is None:
             rb = x
     f = "storage::bitcask::rebuild_storage"
     if rb is None:
